@@ -348,6 +348,7 @@ def poser(prog, run):
     # yields dominated by the run / Fn check in the same loop
     yields = [n for n in ast.walk(g.node) if isinstance(n, (ast.Yield, ast.YieldFrom))]
     oky = bool(yields)
+    why_dep = ""
     pm = astq.parent_map(g.node)
     for y in yields:
         loop = astq.enclosing(pm, y, (ast.For,))
@@ -362,7 +363,14 @@ def poser(prog, run):
         chk = any(isinstance(x, ast.Raise) for s in before for x in ast.walk(s)) and any("result" in astq.src(s, 400) and "Fn" in astq.src(s, 400) for s in before)
         if not chk:
             oky = False
-    run.ob("R-poser", g.qual, "each setup is yielded only after the run / modes-extracted check", oky, f"{len(yields)} yield(s)", witness="unchecked yield", file=f, node=g.node)
+        # the check must be about the setup that is yielded, not about some other setup
+        yv = y.value.id if isinstance(y.value, ast.Name) else None
+        checking = [s for s in before if any(isinstance(x, ast.Raise) for x in ast.walk(s))]
+        if yv is not None and checking and not any(isinstance(x, ast.Name) and x.id == yv for s in checking for x in ast.walk(s)):
+            oky = False
+            why_dep = f"the check before `yield {yv}` never looks at `{yv}`"
+    run.ob("R-poser", g.qual, "each setup is yielded only after the run / modes-extracted check of THAT setup", oky, f"{len(yields)} yield(s)" + (f": {why_dep}" if not oky and why_dep else ""),
+           witness="unchecked yield", file=f, node=g.node)
     # names count check
     names = any(isinstance(s, ast.If) and "self.names" in astq.src(s.test) and "len(" in astq.src(s.test) and any(isinstance(x, ast.Raise) for x in s.body) for s in ast.walk(g.node))
     run.ob("R-poser", g.qual, "one name per algorithm is enforced", names, "len(self.names) compared with the number of algorithms" if names else "no check on the number of names", witness="no-names-check", file=f, node=g.node)
@@ -429,6 +437,8 @@ MUTANTS = [
     ("C15-m14 spectral estimate scales its input in place", "functions.fdd", "SD_est", "Ndat = Yref.shape[1]", "Ndat = Yref.shape[1]\nYall *= 1.0", 1),
     ("C15-m15 PoSER yields unchecked setups", "setup.multi", "MultiSetup_PoSER._init_setups", "if not alg.result or alg.result.Fn is None:\n    raise ValueError('You must pass Single setups that have already been run and the Modal Parameters have to be extracted (call mpe method on SingleSetup)')", "pass"),
     ("C15-m16 set_result ignores run output", "setup.base", "BaseSetup.run_by_name", "self[name]._set_result(result)", "self[name]._set_result(self[name].result)"),
+    ("C15-m18 PoSER re-checks the first setup for every setup", "setup.multi", "MultiSetup_PoSER._init_setups", "for alg in setup.algorithms.values():\n    if not alg.result or alg.result.Fn is None:\n        raise ValueError('You must pass Single setups that have already been run and the Modal Parameters have to be extracted (call mpe method on SingleSetup)')",
+     "for alg in setups[0].algorithms.values():\n    if not alg.result or alg.result.Fn is None:\n        raise ValueError('You must pass Single setups that have already been run and the Modal Parameters have to be extracted (call mpe method on SingleSetup)')"),
     ("C15-m17 SSI_mpe overwrites the caller's order list", "functions.ssi", "SSI_mpe", "order_out = np.array(order)", "order_out = order"),
 ]
 REWRITES = [
